@@ -150,6 +150,25 @@ pub fn prim_basis<E: RealEngine>(is_fft: bool, size: usize, trunc: usize, delta:
     kcover!(x[0] == 0xff && x[63] == 0xff);
 }
 
+/// BASIS on ONE symbolic lane (2 bytes) of shard p, everything else zero: the
+/// affordable form for larger transforms (size 16, 32), where a fully symbolic
+/// block does not fit. Lane-independence of the engine is decided at sizes <= 8.
+pub fn prim_basis_lane<E: RealEngine>(is_fft: bool, size: usize, trunc: usize, delta: usize, p: usize, lane: usize) {
+    let e = E::real();
+    let words = if is_fft { crate::gen::spec::fft_words(size, delta) } else { crate::gen::spec::ifft_words(size, delta) }.unwrap();
+    let mut data = zero_blocks(size);
+    let x: u16 = k::any();
+    set_sym(&mut data[p], lane, x);
+    run(&e, is_fft, &mut data, 0, size, trunc, delta);
+    let valid = if is_fft { trunc } else { size };
+    let mut i = 0;
+    while i < valid {
+        assert!(get_sym(&data[i], lane) == lin(&words[i * size + p], x), "engine output differs from the LCH-basis contract");
+        i += 1;
+    }
+    kcover!(x == 0xffff);
+}
+
 /// ADDITIVITY on fully symbolic buffers (valid outputs only)
 pub fn prim_additive<E: RealEngine>(is_fft: bool, size: usize, trunc: usize, delta: usize) {
     let e = E::real();
